@@ -1078,7 +1078,11 @@ fn death_violation(case: &Case, e: usize, d: &DeathRec, cause: &str) -> Violatio
 
 /// Does the call return within the first-pass budget on this (cut-down) input? (own child)
 fn returns_quickly(bin: &Bin, cut: &str, e: usize, bs: &mut BatchStats) -> bool {
-    let r = run_batch(bin, &[(1u16 << e, Arc::new(cut.to_string()))], FIRST_PASS_S, 3600, bs);
+    returns_within(bin, cut, e, FIRST_PASS_S, bs)
+}
+
+fn returns_within(bin: &Bin, cut: &str, e: usize, cpu_s: u64, bs: &mut BatchStats) -> bool {
+    let r = run_batch(bin, &[(1u16 << e, Arc::new(cut.to_string()))], cpu_s, 3600, bs);
     matches!(
         r.first().and_then(|v| v.first()).map(|p| &p.pr),
         Some(Pr::Val(_)) | Some(Pr::Panic(_))
@@ -1128,6 +1132,15 @@ fn long_condition_cut(input: &str) -> Option<String> {
     Some(cut)
 }
 
+/// Length (in characters) of the longest stretch without `&&` / `||` between the first `when` and
+/// the last `then` (the whole text when there is no `when`).
+fn longest_operator_free_stretch(input: &str) -> usize {
+    let start = input.find("when").map(|w| w + 4).unwrap_or(0);
+    let end = input.rfind("then").filter(|t| *t > start).unwrap_or(input.len());
+    let region = input.get(start..end).unwrap_or(input);
+    region.split("&&").flat_map(|p| p.split("||")).map(|p| p.chars().count()).max().unwrap_or(0)
+}
+
 const REXILE_CAUSE: &str = "stuck-in-rexile-regex-engine";
 const REXILE_MIN_LEN: usize = 2_500;
 
@@ -1153,6 +1166,18 @@ fn explain(bin: &Bin, input: &str, e: usize, d: &DeathRec, bs: &mut BatchStats) 
                     let cf = input.replace(" AND ", " && ").replace(" OR ", " || ");
                     if returns_quickly(bin, &cf, e, bs) {
                         return format!("{}:nested-groups-joined-by-word-operators", REXILE_CAUSE);
+                    }
+                }
+                // ... or nested parenthesised groups around a long stretch that holds no logical
+                // operator (text that is no condition at all: statements, braces, a whole rule
+                // header): nothing splits it, and every nesting level hands it to the matcher again.
+                // Shape: a stretch of >= 120 characters without `&&` / `||` between the first `when`
+                // and the last `then`. Counterfactual: the same text without any parenthesis
+                // needs less than half the limit
+                if longest_operator_free_stretch(input) >= 120 && (input.contains("((") || input.matches('(').count() >= 3) {
+                    let cf: String = input.chars().filter(|c| *c != '(' && *c != ')').collect();
+                    if returns_within(bin, &cf, e, 60, bs) {
+                        return format!("{}:nested-groups-around-a-long-stretch-without-logical-operators", REXILE_CAUSE);
                     }
                 }
                 return format!("{}:on-an-input-below-{}-bytes", REXILE_CAUSE, REXILE_MIN_LEN);
